@@ -57,6 +57,22 @@ Theorem C18_hash_family : forall l h,
 Proof. exact hash_family. Qed.
 Print Assumptions C18_hash_family.
 
+(* the DBCS-aware variants: ASCII bytes are upper-cased except in trail position *)
+Theorem C18_hash_dbcs : forall l h,
+  fnv1a32_dbcscase l false h = fnv1a_spec 32 16777619 h (dbcs_upper (cprefix l) false) /\
+  fnv1a64_dbcscase l false h = fnv1a_spec 64 1099511628211 h (dbcs_upper (cprefix l) false).
+Proof. exact hash_dbcs. Qed.
+Print Assumptions C18_hash_dbcs.
+
+(* CstrTokenR(cstr, sep) = (first, rest): cstr = first ++ tail, no byte of first is NUL or a separator, and either
+   tail is empty (then rest is) or tail is a NUL/separator byte followed by rest *)
+Theorem C18_token_r : forall a sep,
+  let (f, r) := cstr_token_r a sep in
+  exists tail, a = f ++ tail /\ Forall (fun c => tok_stop sep c = false) f /\
+               ((tail = [] /\ r = []) \/ exists c, tail = c :: r /\ tok_stop sep c = true).
+Proof. exact token_r_spec. Qed.
+Print Assumptions C18_token_r.
+
 (* calling ReadLine until EOF returns exactly the lines of the stream: split at LF, each without its LF and one
    trailing CR, empty lines included, EOF exactly at the end — and never panics or spins *)
 Theorem C18_readline : forall s, read_lines s = Ok (split_lines s).
@@ -167,3 +183,9 @@ Theorem C18_no_crash :
   (forall title, exists r, subject_ex title = Ok r).
 Proof. exact no_crash. Qed.
 Print Assumptions C18_no_crash.
+
+(* ... and the same for the very function the harness extracts and runs against the implementation on every case:
+   [run_case] answers status 0 (ok) or 9 (malformed case line), never 1 (crash) or 2 (hang) *)
+Theorem C18_run_case_status : forall args, hd 9 (run_case args) = ST_OK \/ hd 9 (run_case args) = ST_BADCASE.
+Proof. exact run_case_status. Qed.
+Print Assumptions C18_run_case_status.
